@@ -256,6 +256,10 @@ func genElem(kind, elem string) func(t *rapid.T) Case {
 }
 
 func TestGenerated(t *testing.T) {
+	refl.Ladder = []int{513, 1025, 2049} // rare huge variadic calls and repeat counts
+	refl.LargeCaps = []int{255, 300, 1025}
+	refl.LadderRepeatCap = 1100
+	refl.LadderOdds = 2 // every step of this check costs a deep fingerprint and all observers
 	for _, kind := range refl.Kinds {
 		pbt.Run(t, pbt.Target[Case]{Name: kind, Checks: 600, Gen: gen(kind), Check: check})
 	}
